@@ -276,15 +276,30 @@ func solve(query string, timeoutS int, all bool, wantModel bool) SolverResult {
 	}
 	var results []SolverResult
 	var best SolverResult
+	started := time.Now()
+	var grace <-chan time.Time
+collect:
 	for range solverDefs {
-		r := <-ch
-		results = append(results, r)
-		if (r.Status == "unsat" || r.Status == "sat") && best.Status == "" {
-			best = r
-			if !all {
-				cancel()
-				break
+		select {
+		case r := <-ch:
+			results = append(results, r)
+			if (r.Status == "unsat" || r.Status == "sat") && best.Status == "" {
+				best = r
+				if !all {
+					cancel()
+					break collect
+				}
+				// cross-check: the other solvers get a grace period (at least 5 s, twice the time
+				// the first answer took) to confirm or contradict it
+				g := 2 * time.Since(started)
+				if g < 5*time.Second {
+					g = 5 * time.Second
+				}
+				grace = time.After(g)
 			}
+		case <-grace:
+			cancel()
+			break collect
 		}
 	}
 	if all {
